@@ -10,6 +10,7 @@ package main
 // to `_`, and "tested, then nil returned" are undischarged.
 
 import (
+	"go/constant"
 	"fmt"
 	"go/token"
 	"go/types"
@@ -778,7 +779,76 @@ func (w *World) escapesUnreturned(e ssa.Value) string {
 				}
 			}
 		}
+		// a flag of the same call that the callee ties to the error: on the side
+		// where the flag has a value the callee only answers together with a nil
+		// error, there is nothing to hand back (`if v, known, err := f(); known
+		// { return v, err }` with f answering known == false only beside nil)
+		if iff, ok := b.Instrs[len(b.Instrs)-1].(*ssa.If); ok && len(b.Succs) == 2 {
+			cond, neg := iff.Cond, false
+			if u, ok := cond.(*ssa.UnOp); ok && u.Op == token.NOT {
+				cond, neg = u.X, true
+			}
+			if fx, ok := cond.(*ssa.Extract); ok {
+				if ex, ok := e.(*ssa.Extract); ok && fx.Tuple == ex.Tuple && fx.Index != ex.Index {
+					if call, ok := ex.Tuple.(*ssa.Call); ok {
+						for si, succ := range b.Succs {
+							flagVal := si == 0 // Succs[0] is the true edge
+							if neg {
+								flagVal = !flagVal
+							}
+							if w.flagImpliesNilErr(call, fx.Index, ex.Index, flagVal) {
+								continue
+							}
+							work = append(work, succ)
+						}
+						continue
+					}
+				}
+			}
+		}
 		work = append(work, b.Succs...)
 	}
 	return ""
+}
+
+// flagImpliesNilErr: every return of the (in-package, static) callee that can
+// answer the boolean result #fi == val answers the nil error as result #ei.
+func (w *World) flagImpliesNilErr(call *ssa.Call, fi, ei int, val bool) bool {
+	sc := call.Call.StaticCallee()
+	if sc == nil || sc.Blocks == nil || !w.inPkg(sc) {
+		return false
+	}
+	n := 0
+	for _, b := range sc.Blocks {
+		ret, ok := b.Instrs[len(b.Instrs)-1].(*ssa.Return)
+		if !ok || fi >= len(ret.Results) || ei >= len(ret.Results) {
+			continue
+		}
+		n++
+		if c, ok := ret.Results[fi].(*ssa.Const); ok && c.Value != nil && c.Value.Kind() == constant.Bool && constant.BoolVal(c.Value) != val {
+			continue // this return answers the other flag value
+		}
+		// both results merged at one join: correlate them edge by edge
+		if fp, ok := ret.Results[fi].(*ssa.Phi); ok {
+			if ep, ok := ret.Results[ei].(*ssa.Phi); ok && ep.Block() == fp.Block() && len(ep.Edges) == len(fp.Edges) {
+				good := true
+				for j := range fp.Edges {
+					if c, ok := fp.Edges[j].(*ssa.Const); ok && c.Value != nil && c.Value.Kind() == constant.Bool && constant.BoolVal(c.Value) != val {
+						continue
+					}
+					if !isNilConst(ep.Edges[j]) {
+						good = false
+					}
+				}
+				if good {
+					continue
+				}
+				return false
+			}
+		}
+		if !isNilConst(ret.Results[ei]) {
+			return false
+		}
+	}
+	return n > 0
 }
